@@ -518,10 +518,14 @@ Fixpoint names_nodupb (l : list name) : bool :=
   | x :: l' => negb (existsb (str_eqb x) l') && names_nodupb l'
   end.
 
+(* a name a file system can hold: not empty, not "." or "..", no '/' *)
+Definition name_okb (n : name) : bool :=
+  negb (str_eqb n []) && negb (str_eqb n [c_dot]) && negb (str_eqb n [c_dot; c_dot]) && negb (contains c_slash n).
+
 Fixpoint wf_treeb (t : tree) : bool :=
   match t with
   | Dir _ _ ch =>
-      names_nodupb (map fst ch) && forallb (fun nc => wf_treeb (snd nc)) ch
+      names_nodupb (map fst ch) && forallb name_okb (map fst ch) && forallb (fun nc => wf_treeb (snd nc)) ch
   | _ => true
   end.
 
